@@ -81,7 +81,11 @@ func c12Body(t *rapid.T, w *world1) []byte {
 		n := rapid.SampledFrom([]int{100, 20000}).Draw(t, "depth")
 		return []byte(strings.Repeat(`{"a":`, n))
 	case 5, 6: // validly signed authorization at extreme values
-		a := ref.Auth{ShortID: rapid.SampledFrom([]uint32{0, 1, 4294967295, 600, 601}).Draw(t, "id"), PublicKey: keyFor(fmt.Sprintf("c12-dev-%d", rapid.IntRange(0, 3).Draw(t, "dk"))).Pub,
+		// distinct ids carry distinct keys (DESIGN.md section 6: the admin tool
+		// generates a key pair per device; a GCA signing one key for two ids is
+		// outside the input domain and is known to upset CheckInvariants)
+		aid := rapid.SampledFrom([]uint32{0, 1, 4294967295, 600, 601}).Draw(t, "id")
+		a := ref.Auth{ShortID: aid, PublicKey: keyFor(fmt.Sprintf("c12-dev-id-%d", aid)).Pub,
 			Latitude: finiteFloat(t, "lat"), Longitude: finiteFloat(t, "lon"), Capacity: drawU64(t, "cap"), Debt: drawU64(t, "debt"), Expiration: drawU32(t, "exp"), Initialization: drawU32(t, "ini"), ProtocolFee: drawU64(t, "fee")}
 		a.Sig = ref.Sign(s.gca, a.SigningBytes())
 		j, _ := json.Marshal(world.ToGlowAuth(a))
@@ -138,11 +142,10 @@ func (e *c12Env) probe(where string) {
 	a, b := e.s.S.S.VerifTryLocks()
 	if !a || !b {
 		// a request may still be in flight for a moment; retry briefly
-		deadline := time.Now().Add(2 * time.Second)
-		for (!a || !b) && time.Now().Before(deadline) {
-			time.Sleep(2 * time.Millisecond)
+		world.WaitActive(3*time.Second, 2*time.Millisecond, func() bool {
 			a, b = e.s.S.S.VerifTryLocks()
-		}
+			return a && b
+		})
 		if !a || !b {
 			e.fail("a server mutex is still held 2 s after %s (server mutex free: %v, server-list mutex free: %v)", where, a, b)
 		}
@@ -262,7 +265,7 @@ func (e *c12Env) tcpInput(t *rapid.T) {
 		conn.Close()
 		return
 	}
-	conn.SetDeadline(time.Now().Add(3 * time.Second))
+	conn.SetDeadline(time.Now().Add(90 * time.Second))
 	reply, err := io.ReadAll(conn)
 	conn.Close()
 	if err != nil {
@@ -350,7 +353,7 @@ func TestC12Inputs(t *testing.T) {
 				e.httpInput(t)
 			case "rotate":
 				e.hist = append(e.hist, "rotation step")
-				if !s.S.S.VerifStep("migrate") {
+				if !world.Step(s.S.S, "migrate") {
 					e.fail("rotation loop did not complete a granted step")
 				}
 				s.M.Offset = s.S.VerifSnapshot().Offset
@@ -365,14 +368,14 @@ func TestC12Inputs(t *testing.T) {
 			}
 		}
 		// shutdown with whatever is still connected
-		t0 := time.Now()
+		t0 := world.ActiveNow()
 		glow.SetCurrentTimeslot(s.S.VerifSnapshot().Offset)
 		err := s.S.Close()
 		s.closed = true
 		if err != nil && (strings.HasPrefix(err.Error(), "panic:") || strings.HasPrefix(err.Error(), "timeout:")) {
 			e.fail("shutdown with %d idle/half-sent connections failed: %v", len(e.idle), err)
 		}
-		if d := time.Since(t0); d > 2*server.VerifConsts().ServerShutdownTime {
+		if d := world.ActiveNow() - t0; d > 2*server.VerifConsts().ServerShutdownTime {
 			e.fail("shutdown took %v with %d idle/half-sent connections (bound %v)", d, len(e.idle), 2*server.VerifConsts().ServerShutdownTime)
 		}
 		if ps := server.VerifPanics(); len(ps) > 0 {
@@ -438,10 +441,7 @@ func TestC12CatchUpTraffic(t *testing.T) {
 				}
 				before := g.VerifUDPHandled()
 				conn.Write(ref.SignedReport(key, id, uint32(slot), r.power).Encode())
-				deadline := time.Now().Add(2 * time.Second)
-				for g.VerifUDPHandled() == before && time.Now().Before(deadline) {
-					time.Sleep(50 * time.Microsecond)
-				}
+				world.WaitActive(4*time.Second, 50*time.Microsecond, func() bool { return g.VerifUDPHandled() != before })
 				sent++
 			}
 		})
@@ -575,22 +575,20 @@ func TestC12Shutdown(t *testing.T) {
 				}
 				probeDone <- ""
 			}()
-			select {
-			case why := <-probeDone:
-				if why != "" {
-					s.fail("while a handler waits for a stalled peer: %s", why)
-				}
-			case <-time.After(3 * time.Second):
-				s.fail("other requests (authorized-servers / statistics / recent-reports / sync) are not answered within 3 s while a handler waits for a stalled peer")
+			if !world.WaitActive(4*time.Second, 5*time.Millisecond, func() bool { return len(probeDone) > 0 }) {
+				s.fail("other requests (authorized-servers / statistics / recent-reports / sync) are not answered within 4 s of active time while a handler waits for a stalled peer")
+			}
+			if why := <-probeDone; why != "" {
+				s.fail("while a handler waits for a stalled peer: %s", why)
 			}
 			if _, b := s.S.S.VerifTryLocks(); !b {
 				s.fail("the server-list mutex is held while a handler waits for a stalled peer")
 			}
 		}
 		s.logf("shutdown with %d idle/half-sent sync connections, %d idle/half-sent HTTP connections, stalled peer=%v", nIdle, nHTTP, stall)
-		t0 := time.Now()
+		t0 := world.ActiveNow()
 		err := s.S.Close()
-		d := time.Since(t0)
+		d := world.ActiveNow() - t0 // active time: a frozen sandbox does not count
 		s.closed = true
 		ev.Eval(1)
 		if err != nil && (strings.HasPrefix(err.Error(), "panic:") || strings.HasPrefix(err.Error(), "timeout:")) {
